@@ -32,6 +32,7 @@ Definition svc_of (s : azsvc) := match s with ZYorkie => Yorkie | ZAdmin => Admi
 Inductive azcase :=
 | AzRpc (name : string) (fclient fdoc frev fsession : bool) (ok : bool)   (* attacker's key; which ids are the victim's *)
 | AzDb (fn : string) (p owner : N) (found : bool)
+| AzList (fn : string) (p : N) (foreign_rows : N)       (* a listing for project p: how many rows of other projects it returned *)
 | AzGate (s : azsvc) (name : string) (c : azcred) (refused : bool)
 | AzProc (s : azsvc) (name : string).
 
@@ -56,12 +57,24 @@ Definition db_model (fn : string) (p owner : N) : option bool :=
   else if fe "FindRevisionInfoByID" then Some (present (find_raw TRev (owner, 3) scenario))
   else None.
 
+Definition list_model (fn : string) (p : N) : option (list row) :=
+  let fe := String.eqb fn in
+  if fe "FindDocInfosByPaging" || fe "FindDocInfosByQuery" then Some (list_proj p TDoc scenario)
+  else if fe "FindAttachedClientCountsByDocIDs" then Some (list_proj p TClient scenario)
+  else if fe "ListSchemaInfos" || fe "GetSchemaInfos" then Some (list_proj p TSchema scenario)
+  else None.
+
 Definition azcheck (c : azcase) : bool :=
   match c with
   | AzRpc name fc fd fr fs ok =>
       Bool.eqb (is_ok (fst (serve scen_cfg name (CApiKey 1) (az_req name fc fd fr fs) scenario))) ok
   | AzDb fn p owner found =>
       match db_model fn p owner with Some b => Bool.eqb b found | None => false end
+  | AzList fn p nforeign =>
+      match list_model fn p with
+      | Some rows => N.eqb nforeign (N.of_nat (length (filter (fun r => negb (N.eqb (r_proj r) p)) rows)))
+      | None => false
+      end
   | AzGate s name z refused =>
       Bool.eqb (match gate scen_cfg (svc_of s) name (cred_of z) with None => true | Some _ => false end) refused
   | AzProc s name =>
